@@ -10,9 +10,10 @@ Ties  : X2 translator (a changed immediate / swapped operand regenerates a diffe
         the CPU on the same lane values.
 """
 import json, os, re, random, time
-from vlib import core, symrun, xlate_simd
+from vlib import core, symrun, xlate_simd, xlate_validate
 
 PID = "C08"
+PROP_MODULES = ["C08", "C08Kernels", "C08Ops_sse2", "C08Ops_avx2", "C08Ops_avx512"]
 TYPES = {"float": "float", "double": "double", "int32_t": "int32_t", "int64_t": "int64_t",
          "cfloat": "std::complex<float>", "cdouble": "std::complex<double>"}
 REAL_T = ["float", "double", "int32_t", "int64_t"]
@@ -33,7 +34,10 @@ def quick_plan():
     for t in ALL_T: P.append(("avx2", "O2", t, "avx"))
     P += [("avx2", "O2", "int32_t", "sse"), ("avx2", "O2", "int64_t", "sse"), ("avx2", "O0", "float", "avx"), ("avx2", "O1", "int32_t", "avx512")]
     for t in ALL_T: P.append(("avx512", "O2", t, "avx512"))
+    P += [("avx512", "O2", "cfloat", "sse"), ("avx512", "O2", "cdouble", "avx"), ("avx512", "O1", "cfloat", "avx"), ("avx512", "O1", "cdouble", "sse")]
+    P += [("avx2", "O1", "cfloat", "sse"), ("avx2", "O1", "cdouble", "sse"), ("sse42", "O2", "int64_t", "sse"), ("avx512", "O2", "int64_t", "avx")]
     P += [("avx512", "O2", "int32_t", "avx"), ("avx512", "O2", "int64_t", "sse"), ("avx512", "O1", "float", "sse"), ("avx512", "O2", "double", "avx"), ("avx512", "O1", "int64_t", "avx")]
+    P += [("sse2", "O2", "kernels", "kernel"), ("avx", "O1", "kernels", "kernel"), ("avx2", "O2", "kernels", "kernel"), ("avx512", "O2", "kernels", "kernel")]
     P += [("scalar", "O1", "float", "sse"), ("scalar", "O2", "int64_t", "scalar"), ("scalar", "O1", "int32_t", "avx512"), ("scalar", "O2", "float", "scalar")]
     return P
 
@@ -51,6 +55,7 @@ def thorough_plan():
                         continue
                 for opt in ("O2", "O1"):
                     P.append((cfg, opt, t, abi))
+    P += [(cfg, opt, "kernels", "kernel") for cfg in core.ALL_ISAS for opt in ("O1", "O2")]
     P += [("sse2", "O0", t, "sse") for t in ALL_T] + [("avx2", "O0", t, "avx") for t in ALL_T] + [("avx512", "O0", t, "avx512") for t in ALL_T]
     return P
 
@@ -58,9 +63,9 @@ def thorough_plan():
 def groups_of(plan, seed, nrand):
     gs = []
     for (cfg, opt, t, abi) in plan:
+        call = ("run_kernels(%du);" % seed) if t == "kernels" else "run_simd<%s,Fastor::simd_abi::%s>(%du,%du);" % (TYPES[t], abi, seed, nrand)
         gs.append({"key": "%s/%s/%s/%s" % (cfg, opt, t, abi), "header": "simd_real.h", "isa": cfg, "opt": "-" + opt,
-                   "defs": ["-DOPTNAME=\"%s\"" % opt], "calls": ["run_simd<%s,Fastor::simd_abi::%s>(%du,%du);" % (TYPES[t], abi, seed, nrand)],
-                   "plan": (cfg, opt, t, abi)})
+                   "defs": ["-DOPTNAME=\"%s\"" % opt], "calls": [call], "plan": (cfg, opt, t, abi)})
     return gs
 
 
@@ -102,9 +107,9 @@ def report_lines(v, lines, stats):
 
 
 # ---------------------------------------------------------------------------------------------------------------------
-def theorem_lines():
-    """[(first line, last line, name)] of the theorems of Props/C08.lean (to map build errors to obligations)"""
-    p = os.path.join(core.LEAN, "FastorModel", "Props", "C08.lean")
+def theorem_lines(mod="C08"):
+    """[(first line, last line, name)] of the theorems of Props/<mod>.lean (to map build errors to obligations)"""
+    p = os.path.join(core.LEAN, "FastorModel", "Props", mod + ".lean")
     src = open(p).read().split("\n")
     starts = [(i + 1, re.match(r"^theorem\s+(\S+)", l).group(1)) for i, l in enumerate(src) if re.match(r"^theorem\s+\S+", l)]
     out = []
@@ -114,10 +119,98 @@ def theorem_lines():
     return out
 
 
+def all_theorems():
+    """{module: [fully qualified theorem names]}"""
+    out = {}
+    for mod in PROP_MODULES:
+        p = os.path.join(core.LEAN, "FastorModel", "Props", mod + ".lean")
+        src = core.strip_lean_comments(open(p).read())
+        ns = re.findall(r"^namespace\s+(\S+)", src, flags=re.M)
+        pre = (ns[0] + ".") if ns else ""
+        out[mod] = [pre + m for m in re.findall(r"^theorem\s+(\S+)", src, flags=re.M)]
+    return out
+
+
+def audit_all():
+    """#print axioms for every theorem of every C08 Props module -> ({name: axioms}, problems)"""
+    thms = all_theorems(); results = {}; problems = []
+    with core.Scratch() as d:
+        f = os.path.join(d, "Audit.lean")
+        with open(f, "w") as fh:
+            for mod in PROP_MODULES: fh.write("import FastorModel.Props.%s\n" % mod)
+            for mod in PROP_MODULES:
+                for t in thms[mod]: fh.write("#print axioms %s\n" % t)
+        rc, out = core.run(["lake", "env", "lean", f], cwd=core.LEAN, timeout=1800)
+    text = out.replace("\n  ", " ")
+    for m in re.finditer(r"'([^']+)' (depends on axioms: \[([^\]]*)\]|does not depend on any axioms)", text):
+        axs = [a.strip() for a in (m.group(3) or "").split(",") if a.strip()]
+        results[m.group(1)] = axs
+        bad = [a for a in axs if a not in core.ALLOWED_AXIOMS]
+        if bad: problems.append("theorem %s depends on disallowed axioms %s" % (m.group(1), bad))
+    for mod in PROP_MODULES:
+        for t in thms[mod]:
+            if t not in results: problems.append("theorem %s: no axiom report" % t)
+    return thms, results, problems
+
+
+def theorem_coverage(reports):
+    """which generated definitions are mentioned by a theorem statement (not only unfolded in a proof)"""
+    stmts = ""
+    for mod in PROP_MODULES:
+        src = core.strip_lean_comments(open(os.path.join(core.LEAN, "FastorModel", "Props", mod + ".lean")).read())
+        for m in re.finditer(r"^theorem\s+\S+(.*?):=\s*by", src, flags=re.M | re.S):
+            stmts += m.group(1) + "\n"
+    cov = {}
+    for isa, r in reports.items():
+        with_t = []; without = []
+        for meta in r["metas"]:
+            nm = meta["lean"]
+            member = meta["owner"] is not None
+            if re.search(r"\b%s\.%s\b" % (isa, re.escape(nm)), stmts): with_t.append(nm)
+            elif member: without.append(nm)
+        helpers = [m["lean"] for m in r["metas"] if m["owner"] is None]
+        cov[isa] = {"generated": len(r["metas"]), "members": len([m for m in r["metas"] if m["owner"] is not None]), "helpers": len(helpers),
+                    "with_theorem": len(with_t), "members_without_theorem": sorted(without),
+                    "note": "helpers (extintrin.h functions) are covered through the members that call them unless they have an own theorem"}
+    return cov
+
+
+
 def ops_of_theorem(name):
     """theorem name <isa>_<T>_<op...> -> (cfg, T, abi guess, op prefix) used to aim the failing-input search"""
-    m = re.match(r"^(sse2|avx2|avx512)_(int32|int64|float|double|[a-z0-9_]+?)_", name)
+    m = re.match(r"^(sse2|avx2|avx512)[_.](int32|int64|float|double|[a-z0-9_]+?)_", name)
     return m.groups() if m else (None, None)
+
+
+def untied_info(broken, reports):
+    """for every broken theorem: the generated definitions it mentions that the translator no longer produces, with the C
+    function they came from (label in the committed Generated file) and the construct that is outside the grammar now"""
+    prev = {}
+    for isa in reports:
+        try:
+            rc, out = core.run(["git", "show", "HEAD:lean/FastorModel/Generated/Simd_%s.lean" % isa], cwd=core.VERIF, timeout=60)
+        except Exception:
+            rc, out = 1, ""
+        if rc == 0:
+            for m in re.finditer(r"^-- (.*)\ndef (\S+)", out, flags=re.M): prev[(isa, m.group(2))] = m.group(1)
+    now = {isa: set(r["translated"]) for isa, r in reports.items()}
+    why = {isa: dict(r["untranslated"]) for isa, r in reports.items()}
+    info = {}
+    for mod in PROP_MODULES:
+        path = os.path.join(core.LEAN, "FastorModel", "Props", mod + ".lean")
+        src = open(path).read().split("\n")
+        for (a, b, nm) in theorem_lines(mod):
+            tag = nm if mod in ("C08", "C08Kernels") else "%s.%s" % (mod.replace("C08Ops_", ""), nm)
+            if tag not in broken: continue
+            text = "\n".join(src[a - 1:b])
+            gone = []
+            for isa, d in set(re.findall(r"\b(sse2|avx2|avx512)\.([A-Za-z_][\w.]*)", text)):
+                d = d.rstrip(".")
+                if isa in now and d not in now[isa]:
+                    label = prev.get((isa, d))
+                    gone.append({"definition": "%s.%s" % (isa, d), "function": label or "?", "outside_grammar": why[isa].get(label, "not produced by the translator any more") if label else "?"})
+            info[tag] = gone
+    return info
 
 
 def run(tier, seed):
@@ -133,8 +226,15 @@ def run(tier, seed):
     log = []
     t0 = time.time()
     reports = xlate_simd.regenerate(xlate_simd.ISAS, core.REPO, log)
-    ok_all, out = core.lake_build(log=log)
-    thms = core.prop_theorems(PID)
+    xlate_validate.write_tables(reports, log)
+    for isa, r in reports.items():
+        if r.get("error"):
+            v.violation("translator-failed " + isa, {"kind": "harness-failure", "detail": r["error"],
+                        "note": "the headers of configuration %s could not be preprocessed / translated; the previous generated file was kept, the theorems are about stale definitions" % isa}, nofail=True)
+    # only C08's own modules and the driver: a change that breaks another property's proofs must not alarm here
+    ok_all, out = core.lake_build(targets=["FastorModel.Props.%s" % m for m in PROP_MODULES] + ["fmodel"], log=log)
+    thms_by_mod = all_theorems()
+    thms = [t for m in PROP_MODULES for t in thms_by_mod[m]]
     v.cov["obligations"] = len(thms); v.cov["discharged"] = 0
     broken = []            # names of theorems whose proof no longer builds
     proof_info = {"log": log, "build_ok": ok_all}
@@ -143,27 +243,31 @@ def run(tier, seed):
         mods, errs = core.failed_modules(out)
         proof_info["failed_modules"] = mods
         proof_info["errors"] = ["%s:%s: %s" % (e[0], e[1], e[3]) for e in errs][:30]
-        mine = [m for m in mods if m.startswith("FastorModel.Props.C08") or m.startswith("FastorModel.Generated.Simd_")]
+        mine = [m for m in mods if m.startswith("FastorModel.Props.C08") or m.startswith("FastorModel.Generated.Simd")]
         other = [m for m in mods if m not in mine]
         if other or not mods:
             v.violation("lean-build-failed " + ",".join(other or ["?"]), {"kind": "proof-obligation", "detail": proof_info, "tail": out[-3000:],
                         "note": "lake build failed outside C08's modules; nothing can be concluded"}, nofail=True)
-        tl = theorem_lines()
-        for (f, ln, col, msg) in errs:
-            if f.endswith("Props/C08.lean"):
-                for (a, b, nm) in tl:
-                    if a <= int(ln) <= b and nm not in broken: broken.append(nm)
+        for mod in PROP_MODULES:
+            tl = theorem_lines(mod)
+            for (f, ln, col, msg) in errs:
+                if f.endswith("Props/%s.lean" % mod):
+                    for (a, b, nm) in tl:
+                        tag = nm if mod == "C08" else "%s.%s" % (mod.replace("C08Ops_", ""), nm)
+                        if a <= int(ln) <= b and tag not in broken: broken.append(tag)
         if any(m.startswith("FastorModel.Generated.Simd_") for m in mods):
             broken.append("generated-definitions-do-not-compile")
         # the driver does not depend on Props: build it alone for the rest of the check
         fmodel_ok, out2 = core.lake_build(targets=["fmodel"], log=log)
     else:
         hits = core.grep_forbidden()
-        results, problems = core.audit_axioms(PID)
+        _, results, problems = audit_all()
         problems = hits + problems
         proof_info["problems"] = problems
         v.cov["discharged"] = len([t for t in thms if t in results and all(a in core.ALLOWED_AXIOMS for a in results[t])]) if not hits else 0
-        v.cov["theorems"] = [{"name": t, "axioms": results.get(t)} for t in thms]
+        v.cov["theorems"] = [{"name": t, "axioms": results.get(t)} for t in thms_by_mod["C08"] + thms_by_mod["C08Kernels"]]
+        v.cov["generated_theorems"] = {m: len(thms_by_mod[m]) for m in PROP_MODULES if m.startswith("C08Ops")}
+        v.cov["axioms_used"] = sorted(set(a for t in thms for a in (results.get(t) or [])))
         if problems:
             v.violation("audit " + "; ".join(problems)[:200], {"kind": "audit", "detail": problems}, nofail=True)
         if tier == "thorough" and not problems:
@@ -171,8 +275,13 @@ def run(tier, seed):
             proof_info["leanchecker"] = "ok" if okc else outc
             if not okc: v.violation("leanchecker failed", {"kind": "audit", "detail": outc}, nofail=True)
     v.cov["proof"] = proof_info
+    v.cov["theorem_coverage"] = theorem_coverage(reports)
     v.cov["translator"] = {isa: {"translated": len(r["translated"]), "untranslated": len(r["untranslated"]), "file_rewritten": r["changed"],
                                  "untranslated_by_reason": _by_reason(r["untranslated"]), "translated_names": r["translated"]} for isa, r in reports.items()}
+    v.cov["notes_compile_time"] = [
+        "_mm256_div_epi32x (extintrin.h) stores the zero register over the computed quotients; no SIMDVector member calls it (dead code, probed by run_helpers() of harness/simd_real.h)",
+        "minimum()/maximum() are declared without a body for SIMDVector<complex<float>,sse|avx|avx512> and SIMDVector<complex<double>,avx|avx512>: calling them does not compile; the harness calls them for complex<double>,sse only",
+        "SIMDVector<std::complex<T>,simd_abi::scalar> does not compile when instantiated (several ill-formed members); excluded from the plan"]
 
     stats = {"evals": 0, "cases": set(), "classes": set(), "ops": set()}
     nrand = 16 if tier == "quick" else 200
@@ -185,23 +294,32 @@ def run(tier, seed):
             v.violation("harness-failure %s %s" % (e["group"], e["what"]), {"kind": "harness-failure", "detail": e,
                         "note": "the harness for this configuration did not compile or crashed; the property is not shown for it"}, nofail=True)
         if fmodel_ok:
-            from props import c08_intrin
+            from props import c08_intrin, c08_gen
             c08_intrin.run(v, wd, tier, seed, stats)
+            c08_gen.run(v, wd, reports, tier, seed, stats)
         if broken:
             # failing-input search: the enlarged box (more seeds, all optimisation levels) on the configurations the broken theorems are about
-            found = len(v.violations) > before or bool(v.known_hits)
+            found = len(v.violations) > before        # (known findings do not count: they fail on the unchanged tree too)
             if not found:
                 cfgs = sorted(set(ops_of_theorem(b)[0] or "avx2" for b in broken))
-                p2 = [(c, o, t, a) for (c, o, t, a) in thorough_plan() if c in cfgs and a in NATIVE[c]]
+                p2 = [(c, o, t, a) for (c, o, t, a) in thorough_plan() if c in cfgs and (a in NATIVE[c] or t == "kernels")]
                 for s2 in (seed + 101, seed + 202):
                     l2, _ = run_harness(groups_of(p2, s2, 400), wd)
                     b2 = len(v.violations)
                     report_lines(v, l2, stats)
                     if len(v.violations) > b2: found = True; break
+            gone = untied_info(broken, reports)
             for b in broken:
-                v.violation("proof-obligation " + b, {"kind": "proof-obligation", "theorem": b, "errors": proof_info.get("errors"),
-                            "note": "the lane theorem about the definition generated from the current repo tree no longer builds: the code's straight-line intrinsic sequence changed. "
-                                    + ("Failing inputs on the real code are reported in the other replay files." if found else "The search on the real code found no failing input.")},
+                g = gone.get(b, [])
+                if g:
+                    v.notes.append("theorem %s is no longer tied to the code: %s" % (b, "; ".join("%s [%s] is UNTRANSLATED now (%s)" % (x["definition"], x["function"][:90], x["outside_grammar"][:120]) for x in g)))
+                    note = ("the theorem can no longer be stated about the code: the function(s) listed in `no_longer_translated` were rewritten with a construct outside the translator's grammar. "
+                            "This is NOT evidence of a defect by itself; the real functions were run lane by lane against the scalar / specification oracle on boundary and seeded values. ")
+                else:
+                    v.notes.append("theorem %s no longer builds against the definitions generated from the current tree (the code's intrinsic sequence changed)" % b)
+                    note = "the lane theorem about the definition generated from the current repo tree no longer builds: the code's straight-line intrinsic sequence changed. "
+                v.violation("proof-obligation " + b, {"kind": "proof-obligation", "theorem": b, "no_longer_translated": g, "errors": [e for e in (proof_info.get("errors") or []) if True][:30],
+                            "note": note + ("Failing inputs on the real code are reported in the other replay files." if found else "The search on the real code (quick plan + the enlarged plan, incl. the kernel oracles) found no failing input.")},
                             nofail=not found)
     v.cov.update({"evaluations": stats["evals"], "distinct_nontrivial": len(stats["cases"]),
                   "rule": "one case = (configuration, optimisation level, T, ABI, operation); each runs the boundary cross product (|pool|^2 lane-rotated operand pairs) plus seeded random lanes "
@@ -238,6 +356,10 @@ def replay(path):
     if obj.get("kind") == "intrinsic-model":
         from props import c08_intrin
         return c08_intrin.replay(obj)
+    if obj.get("kind") == "translator-validation":
+        out = core.fmodel([obj["input"]])
+        print("generated definition now:", out[0][:600]); print("real code then:        ", obj["real_code"][:600])
+        return 1
     if obj.get("kind") == "proof-obligation":
         log = []
         xlate_simd.regenerate(xlate_simd.ISAS, core.REPO, log)
